@@ -51,7 +51,7 @@ impl Sc {
 
 fn op_channel(op: &[i64]) -> Option<i64> {
     match op[0] {
-        2 | 4 => None,
+        2 | 4 | 8 => None,
         3 | 7 => Some(op[1]),
         _ => {
             if op[1] >= 128 && op[1] < 240 {
@@ -65,7 +65,7 @@ fn op_channel(op: &[i64]) -> Option<i64> {
 
 fn relevant(c: i64, op: &[i64]) -> bool {
     match op[0] {
-        2 | 4 => true,
+        2 | 4 | 8 => true,
         _ => op_channel(op) == Some(c),
     }
 }
